@@ -505,3 +505,27 @@ def deleted_observed(ctx, esc, rule):
             ctx.check(ok, rule, 'every path to `ike_sas.remove(%s)` in %s passes `%s.delete_child_sas()`' % (
                 subj, fi.qual, subj), key=(rule, fi.qual, 'remove-without-delete', subj), site=ctx.site(fi, x))
     return sites
+
+
+# ---------------------------------------------------------------------------------------
+def mac_check(ctx, esc):
+    """the integrity comparison of Message.parse: (fi, cfg, cond node, label of the passing edge,
+    computed-side expr (inlined), received-side expr)"""
+    from ..terms import inline
+    fi = ctx.func('message.Message.parse')
+    g = esc.add_exception_edges(fi)
+    found = []
+    for c in g.nodes:
+        if c.kind != 'cond' or not isinstance(c.ast, ast.Compare) or len(c.ast.ops) != 1:
+            continue
+        if not isinstance(c.ast.ops[0], (ast.NotEq, ast.Eq)):
+            continue
+        sides = [c.ast.left, c.ast.comparators[0]]
+        inl = [inline(ctx.res, fi, s, 4) for s in sides]
+        comp = [i for i, e in enumerate(inl) if any(isinstance(x, ast.Call) and isinstance(x.func, ast.Attribute)
+                                                    and x.func.attr == 'compute' and 'integrity' in src(x.func.value)
+                                                    for x in ast.walk(e))]
+        if len(comp) == 1:
+            passing = 'F' if isinstance(c.ast.ops[0], ast.NotEq) else 'T'
+            found.append((fi, g, c, passing, inl[comp[0]], inl[1 - comp[0]]))
+    return found
